@@ -268,3 +268,36 @@ PROPS["C20"] = dict(
     stages=[Stage("c20", variant="rel"), Stage("c20", variant="chk", args=["--n", "200"]),
             Stage("c20", kind="miri", args=["--n", "6"], miri_flags=MIRI_SERIAL, timeout=(900, 1800), tiers=("thorough",))],
 )
+
+PROPS["C21"] = dict(
+    level="exploration",
+    rule="EXHAUSTIVE for every power-of-two trace length n in 8..256 (thorough 8..1024) and 2 columns: every single (each "
+         "step), periodic (each stride 2..n, each first step) and sequence (each stride 2..n/2 with n/stride values, each "
+         "first step) assertion the constructors accept and n fits: apply() steps/values/order, get_num_steps, "
+         "validate_trace_length on every length 1..4n (powers of two and not), overlaps_with on every ordered pair (8.3M "
+         "pairs quick) <=> explicit cell sets intersect; plus sampled 2..5-element lists through BoundaryConstraints::new "
+         "(prepare_assertions) which must panic with the overlap message iff some pair overlaps; distinct = (n, assertion)",
+    assumptions=["two columns suffice: assertions on different columns never share a cell and the code compares columns first",
+                 "cell sets are written down from the documentation of Assertion (single: the step; periodic: first + k*stride "
+                 "below n; sequence: first + k*stride for k < number of values, fitting only n = stride * values)"],
+    floor=500,
+    exhaustive=True,
+    explanation="all assertions and all ordered pairs for each trace length up to the bound are enumerated; lists for prepare_assertions are sampled",
+    stages=[Stage("c21", variant="rel"), Stage("c21", variant="chk", args=["--maxn", "64"])],
+)
+
+PROPS["C24"] = dict(
+    level="exploration",
+    rule="300 (thorough 6000) random valid base contexts (boundary-biased widths, trace lengths 2^3..2^28, metadata 0..65535 "
+         "bytes incl. chunk-boundary lengths and zero runs, 3 moduli, all option bounds) x every one-parameter alternative: "
+         "ALL trace lengths, blowups, folding factors, remainder degrees, grinding factors, extensions and moduli; boundary "
+         "and bit-flip values for widths, random-element count, constraint count, queries; 9 metadata edit classes (zeros "
+         "appended 1..16, byte dropped, bit flipped, zero inserted at a chunk boundary, bytes swapped, emptied); "
+         "Context::to_elements compared in f62, f64 and f128; evaluation = one pair in one element field; distinct = base contexts",
+    assumptions=["contexts are built with the public constructors only (so constraint counts are <= u32::MAX and lengths fit u32)",
+                 "a pair is compared in an element field only if the modulus halves fit that field (documented precondition of "
+                 "from_bytes_with_padding): 128-bit-modulus contexts are compared in f128 only",
+                 "batching methods and partition options are not in the property's list and are not judged"],
+    floor=100,
+    stages=[Stage("c24", variant="rel"), Stage("c24", variant="chk", args=["--n", "60"])],
+)
